@@ -418,6 +418,10 @@ func c06NullOverValue(x, y W, app bool) int {
 }
 
 func c06Eval(c *Ctx, kind string, raw []byte) {
+	if kind == "heap-overlay" {
+		heapOverlayEval(c, raw) // heap_share2.go
+		return
+	}
 	if kind != "hist" {
 		return
 	}
@@ -777,6 +781,7 @@ func c06Run(c *Ctx) {
 		}
 		c.Do("hist", c06GenHist(r, g, maxWrites))
 	}
+	heapOverlayGen(c, c.N(500)) // heap_share2.go
 }
 
 func c06GenHist(r *rand.Rand, g *DocGen, maxWrites int) c06Hist {
